@@ -77,6 +77,33 @@ def claim_window_before_stage(sig, ctx) -> bool:
     return False
 
 
+def claim_plan_window_data(sig, ctx) -> bool:
+    """Crash between a stage's claim commit and its plan commit (stage has predefined tasks): recovery pushes StartTask,
+    the planning step never runs, so the stage's tasks do not see the outputs of their ancestors."""
+    if ctx["formula"] not in sig["formulas"]:
+        return False
+    tr = ctx.get("trace")
+    if not tr:
+        return False
+    at = ctx.get("at", 0)
+    ev = tr["events"][at - 1] if 0 < at <= len(tr["events"]) else None
+    if not ev or ev.get("e") != "exec":
+        return False
+    prog = ctx["program"]
+    stage = next((s["ref"] for s in prog["stages"] for t in s["tasks"] if t["name"] == ev["task"]), None)
+    sd = next(s for s in prog["stages"] if s["ref"] == stage)
+    for e in tr["events"][:at]:
+        if e["e"] != "crash":
+            continue
+        s = e["s"]
+        row = s["st"].get(stage)
+        if row and row["status"] == "RUNNING" and row["started"] and \
+                all(s["tk"].get(t["name"], {}).get("status") == "NOT_STARTED" for t in sd["tasks"]) and \
+                not any(m["typ"] == "StartTask" and m["s"] == stage for m in s["q"]):
+            return True
+    return False
+
+
 def unbounded_transient(sig, ctx) -> bool:
     """The transient-retry budget is never reached: only for a task scripted to raise TransientError
     at least as often as the documented limit allows (n >= 9), and only for the bound / the outcome."""
@@ -118,6 +145,7 @@ PREDICATES = {
     "claim_window_finished_workflow": claim_window_finished_workflow,
     "unbounded_transient": unbounded_transient,
     "claim_window_before_stage": claim_window_before_stage,
+    "claim_plan_window_data": claim_plan_window_data,
     "late_branch_kill": late_branch_kill,
     "always": always,
 }
